@@ -67,6 +67,58 @@ def gen_spec(rng):
     return spec
 
 
+def too_few_explained(spec, cfg, res, allv, failed, gradient=False):
+    """True if a mapped filter selects no positive weight or a stddev function has < 2 positive weights in force
+    (too few realizations for filters / estimators); None if it cannot be told (ties); False otherwise."""
+    n_obj = len(spec["oweights"])
+    n_con = spec.get("n_con", 0)
+    configured = np.asarray(cfg.realizations.weights)
+    own = np.asarray(cfg.objectives.weights)
+    ambiguous = False
+    used = set()
+    for m in (spec.get("omap_f"), spec.get("cmap_f")):
+        if m is not None:
+            used |= {f for f in m if f >= 0}
+    rows_o, rows_c = res.realizations.objective_weights, res.realizations.constraint_weights
+    filters_ok = True
+    for f in sorted(used):
+        flt = spec["filters"][f]
+        o = flt["options"]
+        if flt["method"].startswith("cvar"):
+            if failed.all():
+                return True
+            continue
+        if flt["method"].endswith("objective"):
+            key = np.nan_to_num(allv[:, o["sort"]]) @ own[o["sort"]]
+        else:
+            key = np.nan_to_num(allv[:, n_obj + o["sort"]])
+        pos = models.sort_window_positive(key, failed, configured, o["first"], o["last"])
+        if pos is False:
+            return True
+        if pos is None:
+            ambiguous = True
+    ests = spec.get("estimators") or ["mean"]
+    for j in range(n_obj + n_con):
+        isobj = j < n_obj
+        jj = j if isobj else j - n_obj
+        emap = spec.get("omap_est") if isobj else spec.get("cmap_est")
+        est = ests[emap[jj]] if emap is not None else ests[0]
+        if est != "stddev":
+            continue
+        fmap = spec.get("omap_f") if isobj else spec.get("cmap_f")
+        rows = rows_o if isobj else rows_c
+        if fmap is not None and fmap[jj] >= 0:
+            if rows is None:
+                ambiguous = True
+                continue
+            wforce = np.asarray(rows[jj])
+        else:
+            wforce = configured
+        if np.count_nonzero(np.where(failed, 0.0, wforce) > 0) < 2:
+            return True
+    return None if ambiguous else False
+
+
 def expected_functions(obs, spec, cfg, res, objs, cons):
     """Compare one FunctionResults with the model. objs/cons: raw evaluator values for this vector."""
     n_obj = objs.shape[1]
@@ -84,7 +136,15 @@ def expected_functions(obs, spec, cfg, res, objs, cons):
         obs.check(res.functions is None, "functions_reported_below_min_success")
         return False
     if res.functions is None:
-        obs.violation("functions_missing", failed=failed, rmin=int(cfg.realizations.realization_min_success))
+        # enough successes for the threshold: functions may only be missing if a filter or estimator had too few
+        why = too_few_explained(spec, cfg, res, allv, failed)
+        if why is None:
+            obs.count("functions_missing_ambiguous")
+        elif why:
+            obs.count("functions_missing_explained_by_filter_or_estimator")
+        else:
+            obs.violation("functions_missing", failed=failed, rmin=int(cfg.realizations.realization_min_success), filters=spec.get("filters"),
+                          estimators=spec.get("estimators"))
         return False
     if failed.all():
         obs.count("all_failed_nan_expected")
